@@ -42,7 +42,7 @@ type C05Scenario struct {
 
 const inf = int64(1) << 62
 
-func key(k int) string { return fmt.Sprintf("k%d", k) }
+func key(k int) string  { return fmt.Sprintf("k%d", k) }
 func val(id int) []byte { return []byte(fmt.Sprintf("v%d", id)) }
 
 func drawC05(rt *rapid.T) interface{} {
